@@ -117,6 +117,12 @@ struct Model {
     /// last saved build: (key, entries). None = nothing valid on disk.
     saved: Option<(String, BTreeMap<String, MEntry>)>,
     handle: Option<MHandle>,
+    /// Not part of the specification: how many consecutive `save`s on the live handle wrote
+    /// nothing new (the implementation may take its "identical re-scan, skip the write" path).
+    /// It only refines the state key, so that states reached through a skipped save are expanded
+    /// on their own instead of being merged with the state before it - hidden in-memory state
+    /// left behind by the skip path (a seeded change kept the staging map) is then exercised.
+    skipped_saves: u8,
 }
 
 impl Model {
@@ -148,7 +154,10 @@ impl Model {
                 } // else: must return None, no state change
             }
             Op::DiskSchema => self.saved = None,
-            Op::Drop => self.handle = None,
+            Op::Drop => {
+                self.handle = None;
+                self.skipped_saves = 0;
+            }
             _ => {
                 let h = self.handle.as_mut().unwrap();
                 match op {
@@ -195,8 +204,10 @@ impl Model {
                     }
                     Op::Save => {
                         let next = std::mem::take(&mut h.next);
+                        let unchanged = matches!(&self.saved, Some((k, f)) if *k == h.key && *f == next);
                         h.visible = next.clone();
                         self.saved = Some((h.key.clone(), next));
+                        self.skipped_saves = if unchanged { (self.skipped_saves + 1).min(2) } else { 0 };
                     }
                     _ => unreachable!(),
                 }
